@@ -363,6 +363,9 @@ def extra_phase(tier, base_seed, prop="C01"):
     if prop == "C04":
         return bigworld.expansion_phase(tier, base_seed)
     big = bigworld.prefix_phase(prop, tier, base_seed)
+    wide = bigworld.wide_phase(prop, tier, base_seed)
+    big["violations"] = list(big.get("violations", [])) + wide.pop("violations", [])
+    big.update(wide)
     if prop != "C01":
         return big
     out = hash_seed_phase(tier, base_seed)
